@@ -84,6 +84,10 @@ def items(toks):
                     if name not in ('tests', 'test'):
                         scan(i + 1, j, container)
                 elif kn:
+                    # Verus syntax only (authoring helper): a brace block inside a contract clause (`ensures match r {..}`) is
+                    # followed by the real body; never happens in plain Rust
+                    while kn[0] == 'fn' and j + 1 < hi and toks[j + 1][1] == '{':
+                        j = _match_close(toks, j + 1)
                     end = j + 1
                     out.append((container, start, end, kn[0], kn[1]))
                 elif htx[:2] == ['verus', '!']:
